@@ -207,6 +207,31 @@ def rule_MP3(rep, prog):
                     okl = all(fn.inst(c.ops[2]) is ph for c in last) and bool(last)
     rep.require(rid, okl, fn.file, fn.name, "final-relinquish-amount",
                 "_dispatch_apply_redirect: the width carried to the next level and relinquished at the end must be the granted width", sample={"final_relinquish": len(last)})
+    # the width is reserved on EVERY level of the chain in turn: the queue handed to the reservation is the loop-carried level (starts at the queue the apply was
+    # submitted to, advanced by do_targetq each round), not a loop-invariant queue - otherwise the lower levels are never asked (a serial queue below no
+    # longer forces the serial fall-back: the iterations run in parallel on a hierarchy that ends in a serial queue) and the final relinquish takes width from
+    # levels that never granted any
+    lv = fn.inst(r.ops[0])
+    while lv is not None and lv.op == "bitcast":
+        lv = fn.inst(lv.ops[0])
+    okv = lv is not None and lv.op == "phi" and fn.inst_reaches(r, lv)
+    if okv:
+        adv = False
+        for v, frm in lv.ops:
+            vi = fn.inst(v)
+            while vi is not None and vi.op == "bitcast":
+                vi = fn.inst(vi.ops[0])
+            if vi is not None and vi.op == "load" and "do_targetq" in prog.fields(vi):
+                b_ = vi.d["ptr"]["base"]
+                bi = fn.inst(b_) if b_[0] == "i" else None
+                while bi is not None and bi.op == "bitcast":
+                    bi = fn.inst(bi.ops[0])
+                adv = adv or (bi is lv)
+        okv = adv
+    rep.require(rid, okv, r.loc, fn.name, "reservation-level-not-walked",
+                "_dispatch_apply_redirect reserves the apply width on a queue that is not the level the walk down the target chain has reached (loop-carried, advanced "
+                "by do_targetq): with two or more non-root levels the lower ones are never asked for width, so a serial queue in the chain no longer forces the "
+                "serial fall-back and the iterations overlap on it", sample={"reserve": r.loc})
     af = calls_named(fn, "_dispatch_apply_f")
     ok2 = bool(af) and all(fn.must_pass(c, last)[0] for c in af)
     rep.require(rid, ok2, fn.file, fn.name, "relinquish-after-apply", "the reserved width must be relinquished after _dispatch_apply_f returns on every path", sample={"apply_f": len(af)})
